@@ -6,6 +6,7 @@ import numpy as np
 from scipy.optimize import linprog
 
 from rv import sets as S
+from rv.common import user_array
 
 ALL_KINDS = ['box', 'norm1', 'norminf', 'norm2', 'sumsqr', 'pnorm', 'quad', 'absbudget',
              'polytope', 'kl', 'entropy']
@@ -215,8 +216,7 @@ def build(spec, rso_mod=None, variant=None):
     B.arrays = []          # every ndarray handed to RSOME (for purity checks)
 
     def arr(a):
-        a = np.array(a, dtype=float)
-        a.flags.writeable = False
+        a = user_array(a, variant.get('arr'))
         B.arrays.append(a)
         return a
 
